@@ -1,9 +1,11 @@
 (* Properties_C12.v — C12: the answer does not depend on the storage / algorithm configuration.
    Proved (ingredients, each for any arithmetic or any ring): forcing and Jacobian do not depend on
    the dense layout; the matrix handed to the linear solver is the same expression for the
-   separate-L/U and the in-place variant (C05).  The composition through the LU algorithms needs
-   C03's missing part; the full cross product is compared on the implementation by the oracle. *)
-From Model Require Import Base Dense ProcessSetM ProcessSetProofs ScatterProofs JacobianProofs CompositionProofs.
+   separate-L/U and the in-place variant (C05); the solution of the linear system is the same for the four LU
+   algorithms and the two linear solvers (any field, any pattern with its diagonal, any previous storage
+   contents).  The composition of these through a whole Solve is compared on the implementation by the oracle. *)
+From Model Require Import Base LU LUProofs Dense ProcessSetM ProcessSetProofs ScatterProofs JacobianProofs CompositionProofs UniqueSolve.
+From Coq Require Import Field.
 Local Open Scope nat_scope.
 
 Theorem C12_forcing_does_not_depend_on_layout :
@@ -27,3 +29,32 @@ Theorem C12_jacobian_does_not_depend_on_layout :
     mget (n0 N) ly2 nnz (sub_jacobian N ly2 p (map (fun e => e * stride ly2) eids) ncells nspec nrxn nnz rc2 y2 j2) c e.
 Proof. exact jacobian_layout_independent. Qed.
 Print Assumptions C12_jacobian_does_not_depend_on_layout.
+
+(* the four decompositions with their solvers compute the same x: each returns a solution of A x = b (C04), and a
+   matrix with an LU factorisation with non-vanishing diagonals has only one (UniqueSolve.solution_unique) *)
+Theorem C12_linear_solution_does_not_depend_on_lu_algorithm :
+  forall (N : Num)
+    (Nfield : field_theory (n0 N) (n1 N) (nadd N) (nmul N) (nsub N) (nopp N) (ndiv N) (ninv N) eq)
+    n (A : mat N) (Ap : pat) (L0 U0 L1 U1 M0 M1 : mat N) (b : vec N),
+    (forall i, i < n -> Ap i i = true) ->
+    let DLp := fst (doolittle_sym n Ap) in
+    let DUp := snd (doolittle_sym n Ap) in
+    let DLU := doolittle_num N n A Ap DLp DUp L0 U0 in
+    let MLp := fst (mozart_sym n Ap) in
+    let MUp := snd (mozart_sym n Ap) in
+    let MLU := mozart_num N n A Ap MLp MUp L1 U1 in
+    let DP := doolittle_ip_sym n Ap in
+    let DM := doolittle_ip_num N n DP M0 in
+    let MP := mozart_ip_sym n Ap in
+    let MM := mozart_ip_num N n MP M1 in
+    (forall r c, r < n -> c < n -> DP r c = true -> M0 r c = view N Ap A r c) ->
+    (forall r c, r < n -> c < n -> MP r c = true -> M1 r c = view N Ap A r c) ->
+    (forall i, i < n -> snd DLU i i <> n0 N) -> (forall i, i < n -> snd MLU i i <> n0 N) ->
+    (forall i, i < n -> DM i i <> n0 N) -> (forall i, i < n -> MM i i <> n0 N) ->
+    let x := lin_solve N n DLp DUp (fst DLU) (snd DLU) b in
+    forall r, r < n ->
+      lin_solve N n MLp MUp (fst MLU) (snd MLU) b r = x r /\
+      lin_solve_ip N n DP DM b r = x r /\
+      lin_solve_ip N n MP MM b r = x r.
+Proof. exact solution_independent_of_lu_algorithm. Qed.
+Print Assumptions C12_linear_solution_does_not_depend_on_lu_algorithm.
